@@ -73,6 +73,75 @@ def rule_swap(ctx):
     return res.finish(7)
 
 
+def rule_permute(ctx):
+    """The permutable kernels keep `kernel_indices`, the table from a variable's *position* to its row of the kernel matrix;
+    `swap_indices` permutes that table.  A per-variable field that swap_indices permutes too (`signs`) lives in position
+    space and is read by position; a field it leaves alone (`targets`, `kernel_diag`, the kernel itself) lives in sample
+    space and is read through the table.  Reading a sample-space field by position (or the reverse) is right only until the
+    first swap - i.e. until shrinking moves a variable."""
+    res = RuleResult("R-C13-permute", "in the Permutable impls a field left alone by swap_indices is read through kernel_indices, a field it permutes is read by position")
+    F = ctx.facts()
+    impls = {}
+    for fn in F.all_fns():
+        d = fn["d"]
+        if d["krate"] == "linfa_svm" and (d.get("trait") or "").endswith("Permutable") and d.get("self_adt") and not fn.get("exp"):
+            impls.setdefault(d["self_adt"], []).append(fn)
+    if len(impls) < 3:
+        res.missing_anchor("the three Permutable impls (found %d)" % len(impls))
+    for adt, fns in sorted(impls.items()):
+        sw = [f for f in fns if f["d"]["name"] == "swap_indices"]
+        if not sw:
+            continue
+        swapped = set()
+        for n in walk(sw[0]["body"]):
+            if n.get("k") == "MethodCall" and n["name"] == "swap" and len(n["args"]) == 2 and self_field(n["recv"]):
+                swapped.add(self_field(n["recv"]))
+        table = "kernel_indices"
+        if table not in swapped:
+            res.instance("%s : position table" % fn_key(sw[0]))
+            res.undecided("%s : position-table" % fn_key(sw[0]), "swap_indices does not swap `kernel_indices` (fail closed)", fn_loc(sw[0]))
+            continue
+        for fn in fns:
+            if fn["d"]["name"] == "swap_indices":
+                continue
+            c = fn["crate"]
+            r = Render(c)
+            key = fn_key(fn)
+            inits = {}
+            for y in walk(fn["body"]):
+                if y.get("k") == "LetStmt" and y.get("init") is not None and y["pat"].get("k") == "Bind":
+                    inits[y["pat"]["local"]] = y["init"]
+
+            def through(e, depth=0):
+                for y in walk(e):
+                    if y.get("k") == "Index" and self_field(y["e"]) == table:
+                        return True
+                    if y.get("k") == "MethodCall" and y["name"] in ("get", "get_unchecked") and self_field(y["recv"]) == table:
+                        return True
+                    if y.get("k") == "Path" and y.get("local") in inits and depth < 4 and through(inits[y["local"]], depth + 1):
+                        return True
+                return False
+            for y in walk(fn["body"]):
+                f = ix = None
+                if y.get("k") == "Index":
+                    f, ix = self_field(y["e"]), y["i"]
+                    if f and "Range" in (c.ty(strip(ix).get("t")) or ""):
+                        f = None
+                elif y.get("k") == "MethodCall" and y["name"] in ("column", "row", "get", "get_unchecked") and len(y["args"]) == 1:
+                    f, ix = self_field(y["recv"]), y["args"][0]
+                if not f or f == table:
+                    continue
+                res.instance("%s : `%s` read with `%s`" % (key, f, r.e(ix)[:30]))
+                thr = through(ix)
+                if f in swapped and thr:
+                    res.violate("%s : swapped-field-read-through-table:%s" % (key, f), "`self.%s` is permuted by swap_indices (it is in position space) but read with `%s`, which goes through kernel_indices: after a swap it is the entry of another variable" % (f, r.e(ix)[:40]), fn_loc(fn, y.get("ln")))
+                elif f not in swapped and not thr:
+                    res.violate("%s : unswapped-field-read-by-position:%s" % (key, f), "`self.%s` is left alone by swap_indices (it is in sample space) but read with `%s`, a position that did not go through kernel_indices: right until the first swap only, i.e. until shrinking moves a variable" % (f, r.e(ix)[:40]), fn_loc(fn, y.get("ln")))
+                else:
+                    res.ok()
+    return res.finish(5)
+
+
 def rule_bound(ctx):
     res = RuleResult("R-C13-bound", "no counted loop over positions takes its bound once from a field that its own body decrements")
     F = ctx.facts()
@@ -1243,7 +1312,7 @@ def rule_nusetup(ctx):
 def rules(tier):
     from . import carry, c04
     from . import precision
-    return [rule_nusetup, rule_reselect, rule_islinear, rule_decision, rule_swap, rule_bound, rule_space, rule_sv, rule_sib, rule_snapshot, rule_rho, rule_rescale, rule_memorder, rule_extent, rule_kernel,
+    return [rule_permute, rule_nusetup, rule_reselect, rule_islinear, rule_decision, rule_swap, rule_bound, rule_space, rule_sv, rule_sib, rule_snapshot, rule_rho, rule_rescale, rule_memorder, rule_extent, rule_kernel,
             carry.make_clone_rule("R-C13-clone", {"linfa_svm", "linfa_kernel"}, 6), carry.make_setter_rule("R-C13-override", {"linfa_svm"}, 6), c04.make_carry_rule("R-C13-carry", {"SvmParams"}, 6),
             precision.make_rule("R-C13-precision", lambda f: f["d"]["krate"] in ("linfa_svm", "linfa_kernel"), 100, "linfa-svm and linfa-kernel"),
             carry.make_accessor_rule("R-C13-accessor", {"linfa_svm", "linfa_kernel"}, 3), carry.make_ctor_rule("R-C13-ctor", {"linfa_svm", "linfa_kernel"}, 3)]
